@@ -258,6 +258,13 @@ def leb128_obligations(ctx, rule):
         fp = M.method("VarInt", "_parse")
         pm = [n.right.value for n in ast.walk(fp.node) if isinstance(n, ast.BinOp) and isinstance(n.op, ast.BitAnd) and isinstance(n.right, ast.Constant)]
         ps = [n.right.value for n in ast.walk(fp.node) if isinstance(n, ast.BinOp) and isinstance(n.op, ast.LShift) and isinstance(n.right, ast.Constant)]
+        # a running shift (`<< shift` with `shift += k` per group) states the same width as `<< k`
+        running = {n.right.id for n in ast.walk(fp.node) if isinstance(n, ast.BinOp) and isinstance(n.op, ast.LShift) and isinstance(n.right, ast.Name)}
+        ps += [n.value.value for n in ast.walk(fp.node) if isinstance(n, ast.AugAssign) and isinstance(n.op, ast.Add) and isinstance(n.target, ast.Name) and n.target.id in running
+               and isinstance(n.value, ast.Constant)]
+        ps += [c.value for n in ast.walk(fp.node) if isinstance(n, ast.Assign) and len(n.targets) == 1 and isinstance(n.targets[0], ast.Name) and n.targets[0].id in running
+               and isinstance(n.value, ast.BinOp) and isinstance(n.value.op, ast.Add) for a, c in ((n.value.left, n.value.right), (n.value.right, n.value.left))
+               if isinstance(a, ast.Name) and a.id == n.targets[0].id and isinstance(c, ast.Constant)]
         ok = set(pm) == {masks[0], masks[0] + 1} and ps == shifts if masks and shifts else False
         ctx.ob(rule, fp, ok, "VarInt._parse uses the same payload mask / continuation bit / shift as _build (masks %s, shifts %s)" % (sorted(set(pm)), ps), key="parse width")
     except Undecided as e:
